@@ -195,6 +195,24 @@ pub fn gen(tier: &str, seed: u64, out: &mut dyn FnMut(Value)) {
             out(json!({"op": "scenario", "rules": [r.to_json(&mut rng)], "events": evj3, "tag": "prefix selection, names beyond identifiers", "nt": true}));
         }
     }
+    // an operand may be another rule's verdict: it is one operand like any other, counted once
+    {
+        let dep_true = SRule { name: "dep".into(), ty: Some("dependency".into()), ops: vec![("$d".into(), Operand::Test { segs: vec!["a".into()], op: 0, lit: Lit::sq("1") })], cond: Some(Form::V("$d".into())), ..Default::default() };
+        let mut ops4 = operands(&["$a", "$b", "$c"]);
+        ops4[0] = ("$a".into(), Operand::Rule("dep".into()));
+        ops4.push(("$ab".into(), Operand::Rule("dep".into())));
+        for g in [None, Some("$a"), Some("$ab"), Some("$b")] {
+            let g = g.map(|x| x.to_string());
+            let mut fs = vec![Form::All(g.clone()), Form::Any(g.clone()), Form::NoneOf(g.clone())];
+            for n in [0u64, 1, 2, 3, 4, 5] {
+                fs.push(Form::N(n, g.clone()));
+            }
+            for f in with_neg(fs) {
+                let r = SRule { name: "r".into(), ops: ops4.clone(), cond: Some(f.clone()), ..Default::default() };
+                out(json!({"op": "scenario", "rules": [dep_true.to_json(&mut rng), r.to_json(&mut rng)], "events": evj, "tag": "rule() operands under quantifiers", "nt": true}));
+            }
+        }
+    }
     // all formulas over variables with up to 3 leaves (each rendered with seeded spellings/parentheses)
     let vl = var_leaves();
     let max = if tier == "thorough" { 3 } else { 3 };
